@@ -55,6 +55,17 @@ claimed["C16"] = dict(
          "Compile-time allocation decisions (escape analysis) are outside what the solver sees.",
     design="5 C16", technique="bounded symbolic execution of go/ssa + SMT with an allocation-event monitor; native AllocsPerRun on witnesses")
 
+claimed["C02"] = dict(
+    text="Bounded symbolic execution of the real write path (Txn.Handle/HandleRoute/Update/UpdateRoute/Delete/Truncate, "
+         "parseRoute, tXn.insert/update/remove/truncate, copy-on-write search, commit/abort) and of every reader (Has, Route, "
+         "Len, Iter.All/Methods/Prefix/Routes) against a sequential map keyed by (method, pattern) with the documented error "
+         "and wildcard-conflict rules: all histories of k writes over a pattern pool (each write direct, in a committed or in "
+         "an aborted transaction) from several start sets, plus writes whose pattern is a fully symbolic byte string; after "
+         "every step every reader must equal the model, errors must be the predicted sentinel (conflicts naming exactly the "
+         "predicted routes) and failed calls change nothing. Histories are enumerated by the executor's decision search; "
+         "pattern bytes are solver-quantified.",
+    design="5 C02", technique=T)
+
 reasons = {}
 
 ids = [json.loads(l)["id"] for l in open("/verif/properties.jsonl")]
